@@ -18,7 +18,7 @@ func init() {
 var yd2Formats = map[string]bool{"formats/fasta": true, "formats/fastq": true, "formats/bed": true, "formats/newick": true}
 
 func rulesC18(c *Ctx, r *Report) {
-	r.explain("Decides, on go/cfg of every function or literal in the module that calls a func(...) bool parameter: (YD1) no callback call is reachable once a callback call has returned false — necessary and sufficient for 'makes no further callback', necessary for 'does not panic' (range-over-func panics on a late callback); (YD2) in fasta, fastq, bed, newick a callback call that carries a non-nil, non-pass-through error is followed by no callback call — 'an error item is always the last item'. Not decided: that the items seen before stopping are the leading items of an uninterrupted run (determinism). Added rules: (REENTRANT) no iterator literal assigns to a captured variable; (STALE-ELEM) for the explicit stacks of ForEach and traverse; (NIL-HANDLE); ForEach's key enumeration/progress rules and the CanonicalSubsequences count/window rules (what the leading items are).")
+	r.explain("Decides, on go/cfg of every function or literal in the module that calls a func(...) bool parameter: (YD1) no callback call is reachable once a callback call has returned false — necessary and sufficient for 'makes no further callback', necessary for 'does not panic' (range-over-func panics on a late callback); (YD2) in fasta, fastq, bed, newick a callback call that carries a non-nil, non-pass-through error is followed by no callback call — 'an error item is always the last item'. Not decided: that the items seen before stopping are the leading items of an uninterrupted run (determinism). Added rules: (REENTRANT) no iterator literal assigns to a captured variable; (STALE-ELEM) for the explicit stacks of ForEach and traverse; (NIL-HANDLE); ForEach's key enumeration/progress rules and the CanonicalSubsequences count/window rules (what the leading items are). (CLOSE) for every aio.Open in the File functions: every path from the successful open to a return passes a Close of that file, called or deferred (directly, in a deferred closure, or in a module helper) — an early stop releases the descriptor like a full run does.")
 	r.assume("go/cfg and go/types of x/tools v0.29.0 represent the source faithfully; a consumer callback that returns normally; the language guarantees a range-over-func loop body returns false to the inner iterator after break/return")
 	yds := allYD(c.Pkgs)
 	nf, ns, n2 := 0, 0, 0
@@ -73,6 +73,7 @@ func rulesC18(c *Ctx, r *Report) {
 		ruleStaleElem(c, r, tr.AnonFuncs[0])
 	}
 	rulesOpenedHandle(c, r)
+	r.floor("CLOSE", rulesCloseAllExits(c, r), 4, "aio.Open call sites in the File functions (6 today)")
 	rulesTrieKeys(c, r)
 	rulesCanonical(c, r)
 	_ = lits
@@ -144,6 +145,24 @@ func rulesOpenedHandle(c *Ctx, r *Report) {
 				if _, dbg := use.(*ssa.DebugRef); dbg {
 					continue
 				}
+				// the variable is captured by a closure (a deferred literal, a range-over-func body): storing into its
+				// cell is not a use; the loads of the cell and the closures that capture it are
+				if st, ok := use.(*ssa.Store); ok && st.Val == ssa.Value(h) {
+					if al, ok := st.Addr.(*ssa.Alloc); ok {
+						for _, cu := range *al.Referrers() {
+							switch x := cu.(type) {
+							case *ssa.Store, *ssa.DebugRef:
+							case *ssa.UnOp, *ssa.MakeClosure:
+								if !nilEdgeOfDominates(e, cu.Block()) {
+									bad = append(bad, c.pos(x.Pos()))
+								}
+							default:
+								bad = append(bad, c.pos(cu.Pos()))
+							}
+						}
+						continue
+					}
+				}
 				if !nilEdgeOfDominates(e, use.Block()) {
 					bad = append(bad, c.pos(use.Pos()))
 				}
@@ -153,7 +172,7 @@ func rulesOpenedHandle(c *Ctx, r *Report) {
 				"every use of the opened file (deferred Close included) lies behind err == nil", fmt.Sprintf("the opened file is used at %v where the open error has not been ruled out: when the path cannot be opened the handle is nil and the (deferred) call panics after the error item was delivered", bad))
 		})
 	}
-	r.floor("NIL-HANDLE", n, 4, "aio.Open call sites in the File functions (6 today)")
+	r.floor("NIL-HANDLE", n, scopedFloor(4, 1), "aio.Open call sites in the File functions (6 today)")
 }
 
 // nilEdgeOfDominates: target is reachable only through the nil edge of a comparison of errV with nil.
